@@ -120,10 +120,11 @@ def run_case(i, rng, tier):
 
     # lock-step continuation
     steps = []
+    ghost_ok = True
     n_steps = rng.randint(1, 6 if tier == "quick" else 10)
     other_items = S.gen_stream(rng, sp, rng.randint(0, 4))
     for _ in range(n_steps):
-        kind = rng.choice(["fill", "fill", "fillnp", "add", "iadd", "mul", "repickle"] if fillable else ["add", "iadd", "mul", "repickle"])
+        kind = rng.choice(["fill", "fill", "fillnp", "fillnp_scalar", "add", "iadd", "mul", "repickle"] if fillable else ["add", "iadd", "mul", "repickle"])
         if kind == "mul" and S.has_transform(sp):
             kind = "repickle"
         try:
@@ -142,6 +143,37 @@ def run_case(i, rng, tier):
                 c.fill.numpy(b2.data, B.weights_array(ws))
                 items.extend(zip(B.rows(b1.saved, len(recs)), ws))
                 steps.append("fill.numpy(%d)" % len(recs))
+            elif kind == "fillnp_scalar" and S.has_quantity(sp):
+                # scalar / omitted weights: both sides run the same call, so the lock-step comparison is sound even
+                # where the C03 known finding (Count before any quantity) makes the result differ from row filling;
+                # the ghost model is not consulted afterwards for this case
+                recs = _np_safe(sp, [r for r, _ in S.gen_stream(rng, sp, rng.randint(1, 4))])
+                b1 = B.Batch(B.columns(recs), "dict")
+                b2 = B.Batch(B.columns(recs), "dict")
+                wsc = rng.choice([None, 1, 1.0, 2.0, 0.5])
+                try:
+                    if wsc is None:
+                        h.fill.numpy(b1.data)
+                    else:
+                        h.fill.numpy(b1.data, wsc)
+                    eh = None
+                except Exception as e1:  # noqa: BLE001
+                    eh = e1
+                try:
+                    if wsc is None:
+                        c.fill.numpy(b2.data)
+                    else:
+                        c.fill.numpy(b2.data, wsc)
+                    ec = None
+                except Exception as e2:  # noqa: BLE001
+                    ec = e2
+                if (eh is None) != (ec is None):
+                    bad("fill.numpy with scalar weight %r: original %s, clone %s" % (wsc, "raised %s" % type(eh).__name__ if eh else "succeeded", "raised %s" % type(ec).__name__ if ec else "succeeded"), steps=steps)
+                    break
+                ghost_ok = False
+                steps.append("fill.numpy(scalar %r)" % (wsc,))
+                if eh is not None:
+                    break
             elif kind == "add":
                 o1 = C.fill_all(S.build(sp), other_items)
                 o2 = C.fill_all(S.build(sp), other_items)
@@ -175,10 +207,11 @@ def run_case(i, rng, tier):
             bad("after %s the clone and the original differ: %s" % (" , ".join(steps), C.fmt_diff(d)), steps=steps)
             break
     if not failures:
-        ok, d, _, inc = R.match(sp, items, O.drop_zero_sparse(O.observe(c)), O.scale_of(items) if items else 1.0, norm=O.drop_zero_sparse)
-        counters["final_ghost_checks"] = 1
-        if not ok and not inc:
-            bad("after the continuation the clone differs from the model of what it was given: %s" % C.fmt_diff(d), steps=steps)
+        if ghost_ok:
+            ok, d, _, inc = R.match(sp, items, O.drop_zero_sparse(O.observe(c)), O.scale_of(items) if items else 1.0, norm=O.drop_zero_sparse)
+            counters["final_ghost_checks"] = 1
+            if not ok and not inc:
+                bad("after the continuation the clone differs from the model of what it was given: %s" % C.fmt_diff(d), steps=steps)
         try:
             if not (c == h):
                 bad("after identical continuations clone == original is False", steps=steps)
